@@ -1,4 +1,22 @@
-(** SerialProofs.v — proofs about the serialisation model of Serial.v (property C05). *)
+(** SerialProofs.v — proofs about the serialisation model of Serial.v (property C05).
+
+    Main results (all for every state satisfying [Inv parse k g] of GraphInv.v):
+      1. [to_dict_same_content], [to_dict_order_independent], [to_dict_equiv]: the ORDERED
+         dictionary depends only on the node set, the edge set and the graph metadata;
+      2. [roundtrip_novalidate] / [copy_deep_eq] (validate = False) and [roundtrip]
+         (validate = True, acyclic state; relies on two section hypotheses discharged in
+         GraphInvProofs.v / GraphAcyclicProofs.v): [from_dict (to_dict g)] succeeds and is
+         deeply equal to [g];
+      3. [deep_eq_to_dict], [to_dict_idempotent]: serialising the result again gives the same
+         dictionary;
+      4. [from_dict_inv] / [roundtrip_class]; [cg_to_ts], [cg_to_ts_preserves],
+         [cg_to_ts_rejects_directed_against_time], [cg_to_ts_rejects_unparsable],
+         [ts_to_cg_deep_eq], [ts_to_cg_to_ts]; [skeleton_roundtrip].
+    For the time-series class the round trip needs, on top of [Inv], that re-deriving the two
+    reserved tags leaves the node metadata unchanged ([TagsStable]); this holds when the
+    metadata lists are key-sorted ([tags_stable_sorted], the representation invariant of
+    [meta]) or were produced by [set_tags] ([tags_stable_set_tags]); [ex_unsorted_not_stable]
+    shows that [Inv] alone is not enough in the model. *)
 From CG Require Import Base Digraph Graph GraphObs GraphInv Serial.
 Set Implicit Arguments.
 
@@ -1546,6 +1564,40 @@ Section Proofs.
       apply fold_err. intros; reflexivity.
   Qed.
 
+  (** ** Theorem 4c: an identifier that does not parse as a time-series name and the
+      conversion is refused *)
+  Theorem cg_to_ts_rejects_unparsable g :
+    Inv parse Plain g -> (exists n, In n (gnodes g) /\ parse (nid n) = None) ->
+    from_causal_graph parse fmt g = Err EValue.
+  Proof.
+    intros HI (n0 & Hn0 & P0). unfold from_causal_graph.
+    rewrite (@to_dict_inv Plain g true HI). cbn [bind]. rewrite from_dict_dict_json.
+    set (bad := fun n : node => match parse (nid n) with None => true | Some _ => false end).
+    destruct (@split_first node bad (nodes_sorted g)) as (pre & x & post & Esp & Bx & Hpre).
+    { exists n0. split; [apply nodes_sorted_in, Hn0|]. unfold bad. rewrite P0. reflexivity. }
+    pose proof (@nodes_sorted_nodup g (inv_nodup_nodes HI)) as Hnd. rewrite Esp in Hnd.
+    rewrite Esp, map_app, fold_left_app.
+    set (items := map (fun n => (node_json Plain true n, retag3 TS (node3 n))) pre).
+    destruct (@add_nodes_fold TS items (empty_graph (gmeta g))) as (g1 & E1 & _).
+    - intros it Hin. apply in_map_iff in Hin. destruct Hin as (n & <- & Hn). cbn [fst snd].
+      rewrite decode_node_json. unfold retag3, retag, node3, id3; cbn [fst snd].
+      specialize (Hpre n Hn). unfold bad in Hpre.
+      destruct (parse (nid n)) as [[v l]|]; [reflexivity|discriminate].
+    - unfold items. rewrite map_map. cbn [snd]. unfold retag3, id3; cbn [fst snd node3].
+      rewrite map_app in Hnd. apply NoDup_app_l in Hnd. exact Hnd.
+    - intros it _ [].
+    - intros _ it Hin. apply in_map_iff in Hin. destruct Hin as (n & <- & Hn).
+      cbn [snd]. unfold retag3, id3, node3; cbn [fst].
+      specialize (Hpre n Hn). unfold bad in Hpre.
+      destruct (parse (nid n)); [discriminate|discriminate].
+    - unfold items in E1. rewrite map_map in E1. cbn [fst] in E1.
+      change (fun x : node => node_json Plain true x) with (node_json Plain true) in E1.
+      rewrite E1. cbn [map fold_left]. unfold add_node_step at 2. cbn [bind].
+      rewrite decode_node_json. unfold bad in Bx.
+      destruct (parse (nid x)) as [[v l]|]; [discriminate|]. cbn [bind].
+      rewrite fold_err; [reflexivity|]. intros; reflexivity.
+  Qed.
+
   (** * The Skeleton view
 
       [Skeleton.from_dict(d, graph_class)] runs the validating [from_dict]; on a skeleton
@@ -1860,6 +1912,57 @@ Section Proofs.
     Corollary roundtrip_class k g j v g' :
       to_dict k g true = Ok j -> from_dict parse fmt k j v = Ok g' -> Inv parse k g'.
     Proof. intros _; apply from_dict_inv. Qed.
+
+    Lemma v_nodes_in g t : In t (v_nodes g) <-> exists n, In n (gnodes g) /\ node3 n = t.
+    Proof.
+      unfold v_nodes. rewrite in_map_iff. split; intros (n & A & B).
+      - exists n. split; [apply nodes_sorted_in, B|exact A].
+      - exists n. split; [exact B|apply nodes_sorted_in, A].
+    Qed.
+
+    Lemma lagp_node_lag g id l : Inv parse TS g -> node_lag g id = Some l -> lagp id = l.
+    Proof.
+      intros HI H. unfold node_lag in H. destruct (get_node g id) as [n|] eqn:G; [|discriminate].
+      destruct (find_node_some _ _ G) as [Hn <-].
+      destruct (ts_nodeok (inv_ts HI eq_refl) n Hn) as (v & l' & P & _ & Hl).
+      unfold lagp. rewrite P. congruence.
+    Qed.
+
+    (** ** TS -> plain -> TS is the identity up to deep equality ([ts_to_cg_to_ts]) *)
+    Theorem ts_to_cg_to_ts g :
+      Inv parse TS g -> TagsStable g -> Acyclic g ->
+      exists p g', ts_to_cg parse fmt g = Ok p
+        /\ from_causal_graph parse fmt p = Ok g' /\ deep_eq_state g g'.
+    Proof.
+      intros HI HT Hac. destruct (ts_to_cg_deep_eq HI Hac) as (p & Ep & (Vn & Ve & Vm)).
+      apply map_edge4_inj in Ve.
+      assert (HIp : Inv parse Plain p).
+      { unfold ts_to_cg in Ep. rewrite (@to_dict_inv TS g true HI) in Ep. cbn [bind] in Ep.
+        apply from_dict_inv in Ep. exact Ep. }
+      assert (HPp : all_parse p).
+      { intros n Hn. assert (Hin : In (node3 n) (v_nodes p)) by (apply v_nodes_in; eauto).
+        rewrite <- Vn in Hin. apply v_nodes_in in Hin. destruct Hin as (n' & Hn' & E3).
+        assert (nid n' = nid n) by (unfold node3 in E3; congruence).
+        destruct (ts_nodeok (inv_ts HI eq_refl) n' Hn') as (v & l & P & _). congruence. }
+      assert (Htime : forall e, In e (gsrc p) -> (lagp (esrc e) <= lagp (edst e))%Z).
+      { intros e He. apply sorted_edges_in in He. fold (v_edges p) in He. rewrite <- Ve in He.
+        apply sorted_edges_in in He.
+        destruct (ts_time (inv_ts HI eq_refl) e He) as (ls & ld & Ls & Ld & Hle).
+        rewrite (lagp_node_lag _ HI Ls), (lagp_node_lag _ HI Ld). exact Hle. }
+      destruct (@cg_to_ts p HIp HPp) as (g' & Eg & Vn' & Es' & _ & Em').
+      { intros e He _. apply Htime, He. }
+      exists p, g'. split; [exact Ep|]. split; [exact Eg|].
+      assert (Hsrc : gsrc g' = sorted_edges g).
+      { rewrite Es'. fold (v_edges p). rewrite <- Ve. unfold v_edges.
+        rewrite (map_ext_in _ (fun e => e)); [apply map_id|].
+        intros e He. apply ts_orient_spec. apply Htime.
+        apply sorted_edges_in. fold (v_edges p). rewrite <- Ve. exact He. }
+      split; [|split].
+      - rewrite Vn', <- Vn. symmetry. apply (@retag3_v_nodes TS g HI (fun _ => HT)).
+      - f_equal. unfold v_edges, sorted_edges. rewrite Hsrc. fold (sorted_edges g).
+        symmetry. apply isort_sorted_id, sorted_edges_sorted.
+      - congruence.
+    Qed.
   End Validated.
 End Proofs.
 
@@ -2080,3 +2183,89 @@ Example ex_unsorted_not_stable :
   | Err _ => False
   end.
 Proof. vm_compute. reflexivity. Qed.
+
+(** the theorems apply to these states (their hypotheses are jointly satisfiable) *)
+Example ex_ts_apply_roundtrip :
+  exists j g', to_dict TS ex_ts true = Ok j
+    /\ from_dict Names.parse Names.fmt TS j false = Ok g' /\ deep_eq_state ex_ts g'.
+Proof.
+  exact (@roundtrip_novalidate Names.parse Names.fmt TS ex_ts ex_ts_inv
+           (fun _ => ex_ts_tags_stable)).
+Qed.
+
+Example ex_ts_apply_idempotent :
+  exists j g', to_dict TS ex_ts true = Ok j /\ from_dict Names.parse Names.fmt TS j false = Ok g'
+    /\ to_dict TS g' true = Ok j /\ to_dict TS g' false = to_dict TS ex_ts false.
+Proof.
+  exact (@to_dict_idempotent Names.parse Names.fmt TS ex_ts ex_ts_inv
+           (fun _ => ex_ts_tags_stable)).
+Qed.
+
+Example ex_ts_apply_order_independent :
+  to_dict TS ex_ts true = to_dict TS ex_ts_permuted true.
+Proof.
+  apply to_dict_same_content.
+  - exact (inv_nodup_nodes ex_ts_inv).
+  - exact (inv_nodup_keys ex_ts_inv).
+  - exact ex_ts_permuted_same_content.
+Qed.
+
+Example ex_plain_apply_cg_to_ts :
+  exists g', from_causal_graph Names.parse Names.fmt ex_plain = Ok g'
+    /\ v_nodes g' = map (retag3 Names.parse TS) (v_nodes ex_plain)
+    /\ gsrc g' = map (ts_orient Names.parse) (sorted_edges ex_plain)
+    /\ gdst g' = map (ts_orient Names.parse) (sorted_edges ex_plain)
+    /\ gmeta g' = gmeta ex_plain.
+Proof. exact (@cg_to_ts Names.parse Names.fmt ex_plain ex_plain_inv ex_plain_all_parse ex_plain_time). Qed.
+
+Lemma ex_plain_bad_inv : Inv Names.parse Plain ex_plain_bad.
+Proof.
+  constructor.
+  - vm_compute. nodup_tac.
+  - vm_compute. apply Permutation_refl.
+  - vm_compute. nodup_tac.
+  - intros e H. vm_compute in H. in_cases H; vm_compute; intuition.
+  - intros e H. vm_compute in H. in_cases H; vm_compute; discriminate.
+  - intros e H. vm_compute in H. in_cases H; vm_compute; intuition discriminate.
+  - intros n H. vm_compute in H. in_cases H; vm_compute; apply Permutation_refl.
+  - intros n H. vm_compute in H. in_cases H; vm_compute; apply Permutation_refl.
+  - intros _. vm_compute. split; reflexivity.
+  - discriminate.
+Qed.
+
+Example ex_plain_bad_apply_rejects :
+  from_causal_graph Names.parse Names.fmt ex_plain_bad = Err EValue.
+Proof.
+  apply cg_to_ts_rejects_directed_against_time.
+  - exact ex_plain_bad_inv.
+  - intros n H. vm_compute in H. in_cases H; vm_compute; discriminate.
+  - exact ex_plain_bad_hyp.
+Qed.
+
+(** TS -> plain -> TS on the example, by evaluation *)
+Example ex_ts_to_cg_to_ts :
+  match ts_to_cg Names.parse Names.fmt ex_ts with
+  | Ok p =>
+      deep_eqb ex_ts p = true
+      /\ match from_causal_graph Names.parse Names.fmt p with
+         | Ok g' => deep_eqb ex_ts g' = true
+         | Err _ => False
+         end
+  | Err _ => False
+  end.
+Proof. vm_compute. split; reflexivity. Qed.
+
+(** an identifier with two lag markers does not parse: the conversion raises ValueError *)
+Definition ex_plain_unparsable : graph :=
+  run Names.parse Names.fmt Plain
+    [OAddNode [98; 32; 108; 97; 103; 40; 110; 61; 49; 41; 32; 108; 97; 103; 40; 110; 61; 50; 41]
+       VUnspec None]
+    (empty_graph []).
+
+Example ex_cg_to_ts_unparsable :
+  from_causal_graph Names.parse Names.fmt ex_plain_unparsable = Err EValue
+  /\ exists n, In n (gnodes ex_plain_unparsable) /\ Names.parse (nid n) = None.
+Proof.
+  split; [vm_compute; reflexivity|].
+  eexists; split; [left; reflexivity|vm_compute; reflexivity].
+Qed.
